@@ -297,3 +297,9 @@ func refIsDecimal(s string) bool {
 	}
 	return true
 }
+
+// refOneRune: s is exactly one valid UTF-8 encoded character.
+func refOneRune(s string) bool {
+	rs := []rune(s)
+	return len(rs) == 1 && rs[0] != 0xFFFD && len(string(rs[0])) == len(s)
+}
